@@ -605,7 +605,21 @@ fn sweep_cases(seed: u64, tier: &str, bins: &Binaries, scratch: Option<&str>) ->
             let mut c = make_case("args", &lines, b"", &Cfg::default(), &mut rng, true);
             c.events.push(("w1".into(), "err".into(), errno));
             c.note = format!("probe/f stdout fails with errno {}", errno);
-            out.push(Planned { case: c, stratum: "probe-not-judged" });
+            out.push(Planned { case: c, stratum: "stdout-failure" });
+        }
+        if let Some((_, lines)) = corpus.iter().find(|(n, _)| n == "long-output") {
+            let content = frame(lines, 0, true, &mut rng);
+            for errno in [28i64, 5] {
+                for gap in 0..3usize {
+                    let mut c = make_case("stdin", lines, &content, &Cfg::default(), &mut rng, true);
+                    for _ in 0..gap {
+                        c.events.push(("w1".into(), "chunk".into(), 400));
+                    }
+                    c.events.push(("w1".into(), "err".into(), errno));
+                    c.note = format!("probe/f stdout fails with errno {} at write {} of a long result", errno, gap);
+                    out.push(Planned { case: c, stratum: "stdout-failure" });
+                }
+            }
         }
     }
     // usage errors (clap): zero / non-numeric / overflowing thresholds, surrogates without escape
@@ -883,6 +897,7 @@ fn expect_json(e: &Expect) -> Value {
         Expect::ClapError => json!("usage-error"),
         Expect::Either(b, r) => json!({"either_output": String::from_utf8_lossy(b), "or_rejection_because": r}),
         Expect::LibraryPanics(m) => json!({"library_panics": m}),
+        Expect::NoSilentSuccess => json!("no-silent-success (stdout refused the bytes)"),
         Expect::NotJudged(r) => json!({"not_judged": r}),
     }
 }
@@ -1147,6 +1162,7 @@ fn mode_run(args: &[String]) -> i32 {
             Expect::ClapError => "usage-error",
             Expect::Either(_, _) => "either",
             Expect::LibraryPanics(_) => "library-panics(not judged)",
+            Expect::NoSilentSuccess => "no-silent-success",
             Expect::NotJudged(_) => "not-judged(probe)",
         };
         *expect_kinds.entry(ek).or_insert(0) += 1;
